@@ -166,6 +166,27 @@ func init() {
 			}
 			radius = 0
 		}
+		if rng.Intn(8) == 0 {
+			// radius 0, a segment placed symmetrically about a voxel corner: its midpoint is the corner itself up to one rounding,
+			// and start + 0.5·(end − start) need not round like end + 0.5·(start − end) — the corridor must bisect the segment in
+			// the same direction as the line query it is compared with
+			k := math.Floor((lon + 180) / wLon)
+			b := k*wLon - 180
+			d := (rng.Float64()*0.9 + 0.05) * wLon * float64(1+rng.Intn(2))
+			lon, lon2 = b-d, b+d
+			kf := math.Floor(alt / wAlt)
+			c := kf * wAlt
+			da := (rng.Float64()*0.9 + 0.05) * wAlt
+			alt, alt2 = c-da, c+da
+			lat2 = lat
+			if rng.Intn(2) == 0 {
+				lat2 = lat + span()*wLon*0.3
+			}
+			radius = 0
+			if rng.Intn(2) == 0 {
+				lon, lat, alt, lon2, lat2, alt2 = lon2, lat2, alt2, lon, lat, alt
+			}
+		}
 		skips := "0"
 		if rng.Intn(3) == 0 {
 			skips = "1"
